@@ -66,6 +66,13 @@ def errorLike (req : Req) (code : Nat) (msg : Bytes) : Message :=
                               length := 48 + req.query.length + e.header.bodyLength }
     query := req.query, body := e.body }
 
+/-- `response_header_builder(id, query_format)` + a body: what every built-in handler's success path
+(`create_response_unstamped*`, `create_typed_slice_response_unstamped*`) returns — the request's id, the request's
+query format if it is a known one (else raw binary), `ec = Ok`, no query (the writer echoes it). -/
+def builtinResponse (req : Req) (bodyFormat : Nat) (body : Bytes) : Message :=
+  (Builder.mk req.header.id false 0 (if req.header.queryFormat ≤ 1 then req.header.queryFormat else 0)
+    bodyFormat [] body).build
+
 inductive RouteOutcome where
   | reject (code : Nat)
   | dispatch
